@@ -655,6 +655,14 @@ class ObjectStore:
     def __init__(self):
         self.store: Dict[int, Any] = {}
         self.constructed: Set[int] = set()
+        self.executed: Set[int] = set()
+
+    def set_executed(self, identifier: int) -> bool:
+        """Marks a pre-task as executed: returns False if it already was"""
+        if identifier in self.executed:
+            return False
+        self.executed.add(identifier)
+        return True
 
     def set_constructed(self, identifier: int):
         self.constructed.add(identifier)
@@ -1824,9 +1832,10 @@ class ConfigInformation:
         processor = ConfigInformation.FromPython(context, objects=objects)
         last_object = processor(self.pyobject)
 
-        # Execute pre-tasks
-        for pre_task in processor.pre_tasks.values():
-            pre_task.execute()
+        # Execute pre-tasks (once for a given object store)
+        for key, pre_task in processor.pre_tasks.items():
+            if processor.objects.set_executed(key):
+                pre_task.execute()
 
         return last_object
 
